@@ -711,16 +711,22 @@ class EvalFunc:
             args = []
         kwargs = kwargs.copy() if kwargs else {}
         bad_kwargs = []
+        if not self.func_def.args.kwarg:
+            bad_kwargs = [arg.arg for arg in self.func_def.args.posonlyargs if arg.arg in kwargs]
+        if len(bad_kwargs) > 0:
+            raise TypeError(
+                f"{self.name}() got some positional-only arguments passed as keyword arguments: '{', '.join(bad_kwargs)}'"
+            )
         for i, func_def_arg in enumerate(self.func_def.args.posonlyargs + self.func_def.args.args):
             var_name = func_def_arg.arg
             val = None
+            # a positional-only parameter never takes a keyword: with **kwargs the keyword goes there
+            by_keyword = var_name in kwargs and i >= self.num_posonly_arg
             if i < len(args):
                 val = args[i]
-                if var_name in kwargs:
+                if by_keyword:
                     raise TypeError(f"{self.name}() got multiple values for argument '{var_name}'")
-            elif var_name in kwargs:
-                if i < self.num_posonly_arg:
-                    bad_kwargs.append(var_name)
+            elif by_keyword:
                 val = kwargs[var_name]
                 del kwargs[var_name]
             elif self.num_posn_arg <= i < len(self.defaults) + self.num_posn_arg:
@@ -730,10 +736,6 @@ class EvalFunc:
                     f"{self.name}() missing {self.num_posn_arg - i} required positional arguments"
                 )
             sym_table[var_name] = val
-        if len(bad_kwargs) > 0:
-            raise TypeError(
-                f"{self.name}() got some positional-only arguments passed as keyword arguments: '{', '.join(bad_kwargs)}'"
-            )
 
         for i, kwonlyarg in enumerate(self.func_def.args.kwonlyargs):
             var_name = kwonlyarg.arg
